@@ -97,7 +97,11 @@ func (b *Block) ToBytes() []byte {
 	var viewBuf [8]byte
 	binary.LittleEndian.PutUint64(viewBuf[:], uint64(b.view))
 	buf = append(buf, viewBuf[:]...)
-	buf = append(buf, b.batch.Marshal()...) // may panic
+	// the batch is variable-length and followed by more variable-length data: prefix it with its
+	// length so that the bytes (and the hash) name one batch and one certificate
+	batch := b.batch.Marshal() // may panic
+	buf = binary.LittleEndian.AppendUint32(buf, uint32(len(batch)))
+	buf = append(buf, batch...)
 	buf = append(buf, b.cert.ToBytes()...)
 	var tsBuf [8]byte
 	binary.LittleEndian.PutUint64(tsBuf[:], uint64(b.ts.UnixNano()))
